@@ -59,15 +59,19 @@ def _grid():
 
 
 def enumerate_cases(tier: str):
+    for stored in ("2.2.0", "2.3.2", "2.0", "1.5.1", "1.4", "", "garbage"):
+        for report in ("2.2.0", "1.5", "2.1.1"):
+            yield {"kind": "persisted", "stored": stored, "report": report}
     for text in _grid():
         for via in ("get_protocol", "reply", "presentation"):
             yield {"kind": "map", "text": text, "via": via}
     for version in VERSIONS:
         for how in ("pinned", "learned"):
-            for mtype in list(range(-3, 41)) + [2**31, 10**30, -(10**12)]:
-                yield {"kind": "gate", "version": version, "how": how, "cmd": 3, "type": mtype}
-            for mtype in list(range(-2, 9)) + [2**31, -(10**12)]:
-                yield {"kind": "gate", "version": version, "how": how, "cmd": 4, "type": mtype}
+            for ack in (0, 1):
+                for mtype in list(range(-3, 41)) + [2**31, 10**30, -(10**12)]:
+                    yield {"kind": "gate", "version": version, "how": how, "cmd": 3, "type": mtype, "ack": ack}
+                for mtype in list(range(-2, 9)) + [2**31, -(10**12)]:
+                    yield {"kind": "gate", "version": version, "how": how, "cmd": 4, "type": mtype, "ack": ack}
 
 
 _component = st.one_of(st.integers(0, 12), st.integers(0, 12), st.integers(0, 10**6))
@@ -80,7 +84,7 @@ def _hist_ops():
     return st.lists(
         st.one_of(
             report_text.map(lambda s: ["rx", f"0;255;3;0;2;{s}\n"]),
-            report_text.map(lambda s: ["rx", f"0;255;3;0;2;{s}\n"]),
+            report_text.map(lambda s: ["rx", f"0;255;3;1;2;{s}\n"]),
             report_text.map(lambda s: ["rx", f"0;255;0;0;18;{s}\n"]),
             st.sampled_from(
                 (
@@ -128,11 +132,11 @@ def _shape(text: str) -> str:
     return f"{len(parts)}parts-{tail}"
 
 
-async def _probe(version_setup, cmd: int, mtype: int, payload: str) -> tuple[str, object, object]:
+async def _probe(version_setup, cmd: int, mtype: int, payload: str, ack: int = 0) -> tuple[str, object, object]:
     gateway, _t = env.make_gateway(None)
     await version_setup(gateway)
     env.install_registry(gateway.nodes, {"1": {}})
-    status, value = await env.rx(gateway, f"1;255;{cmd};0;{mtype};{payload}\n")
+    status, value = await env.rx(gateway, f"1;255;{cmd};{ack};{mtype};{payload}\n")
     return classify(status, value), value, gateway
 
 
@@ -176,10 +180,10 @@ def _run_gate(case: dict) -> Outcome:
         if how == "pinned":
             gateway.protocol_version = version
         else:
-            await env.rx(gateway, f"0;255;3;0;2;{version}.1\n")
+            await env.rx(gateway, f"0;255;3;{case.get('ack', 0)};2;{version}.1\n")
 
     payload = version if (cmd == 3 and mtype == 2) else "1"
-    outcome, value, _gw = env.run(_probe(setup, cmd, mtype, payload))
+    outcome, value, _gw = env.run(_probe(setup, cmd, mtype, payload, case.get("ack", 0)))
     want_supported = _supported(version, cmd, mtype)
     name = "internal" if cmd == 3 else "stream"
     if want_supported and outcome != "ok":
@@ -196,7 +200,7 @@ def _report_text(line: str | None) -> str | None:
 
 
 def _report_text_of(line: str) -> str | None:
-    if line.startswith("0;255;3;0;2;") or line.startswith("0;255;0;0;18;"):
+    if line.startswith(("0;255;3;0;2;", "0;255;3;1;2;", "0;255;0;0;18;", "0;255;0;1;18;")):
         return line.rstrip("\n").split(";", 5)[5]
     return None
 
@@ -275,8 +279,8 @@ def _run_hist(case: dict) -> Outcome:
         asked = any(line == "77;255;3;0;19;\n" for _s, line in _t.writes[before_writes:])
         if asked != want.startswith("2"):
             return fail(f"handlers-in-force:{want}", f"after history, version {reported!r} (rules {want}): set from unknown node 77 {'wrote' if asked else 'did not write'} a presentation request")
-        for cmd, mtype in PROBES:
-            status, value = await deliver(f"1;255;{cmd};0;{mtype};1\n")
+        for pidx, (cmd, mtype) in enumerate(PROBES):
+            status, value = await deliver(f"1;255;{cmd};{pidx % 2};{mtype};1\n")
             outcome = classify(status, value)
             if _supported(want, cmd, mtype) and outcome == "unsupported":
                 return fail(f"rules-in-force:refuses:{want}", f"after history, version {reported!r}: type {cmd}/{mtype} exists in {want} but is refused")
@@ -292,8 +296,57 @@ def _run_hist(case: dict) -> Outcome:
     return Outcome(ok=True, nontrivial=nontrivial, classes=classes)
 
 
+def _run_persisted(case: dict) -> Outcome:
+    """Entering the context with a persistence file that holds the gateway node: still no version reported => 1.4 rules."""
+    import json
+    import os
+    import shutil
+    import tempfile
+
+    from aiomysensors.gateway import Config, Gateway
+
+    from vf.props import c13
+
+    scratch = tempfile.mkdtemp(prefix="vf-c05-", dir=c13.SCRATCH_BASE)
+    path = os.path.join(scratch, "p.json")
+    node0 = {"node_id": 0, "node_type": 18, "protocol_version": case["stored"], "sketch_name": "", "sketch_version": "", "battery_level": 0, "heartbeat": 0, "sleeping": False, "children": {}}
+    with open(path, "w", encoding="utf-8") as fil:
+        json.dump({"0": node0, "1": dict(node0, node_id=1, node_type=17)}, fil)
+
+    async def go() -> Outcome | None:
+        transport = env.RecordingTransport()
+        gateway = Gateway(transport, Config(persistence_file=path))
+        async with gateway:
+            if gateway.protocol_version is not None:
+                return fail("persisted:version-invented", f"no report received but protocol_version={gateway.protocol_version!r}")
+            if gateway.protocol.VERSION != "1.4":
+                return fail("disagree:none", f"no version reported (the file holds node 0 with {case['stored']!r}) but rules are {gateway.protocol.VERSION}")
+            for cmd, mtype in PROBES:
+                status, value = await env.rx(gateway, f"1;255;{cmd};0;{mtype};1\n")
+                outcome = classify(status, value)
+                if not _supported("1.4", cmd, mtype) and outcome != "unsupported":
+                    return fail("rules-in-force:accepts:1.4", f"no version reported yet, type {cmd}/{mtype} gave {outcome}")
+            await env.rx(gateway, f"0;255;3;0;2;{case['report']}\n")
+            want = ref_protocol(case["report"])
+            if gateway.protocol.VERSION != want or gateway.protocol_version != case["report"]:
+                return fail("mapping-live:after-persisted", f"after report {case['report']!r}: version {gateway.protocol_version!r}, rules {gateway.protocol.VERSION}")
+        return None
+
+    try:
+        bad = env.run(go())
+    finally:
+        shutil.rmtree(scratch, ignore_errors=True)
+    classes = ("persisted",)
+    if bad is not None:
+        bad.classes = classes
+        return bad
+    return Outcome(ok=True, nontrivial=True, classes=classes)
+
+
 def run_case(case: dict) -> Outcome:
     kind = case["kind"]
+    if kind == "persisted":
+        return _run_persisted(case)
     if kind == "map":
         return _run_map(case)
     if kind == "gate":
